@@ -233,6 +233,11 @@ pub fn filter_source(name: &str, arity: usize) -> String {
 
 /// Apply a filter; Ok(Ok(value)) / Ok(Err(parse-or-render error)) / Err(panic).
 pub fn apply(conf: Conf, name: &str, input: &RV, args: &[RV]) -> R<RV> {
+    apply_values(conf, name, input.to_value(), args.iter().map(|a| a.to_value()).collect())
+}
+
+/// Same with engine values (dates have no RV form).
+pub fn apply_values(conf: Conf, name: &str, input: Value, args: Vec<Value>) -> R<RV> {
     let key = (conf, name.to_string(), args.len());
     let tpl = FILTER_TEMPLATES.with(|c| {
         let mut c = c.borrow_mut();
@@ -250,9 +255,9 @@ pub fn apply(conf: Conf, name: &str, input: &RV, args: &[RV]) -> R<RV> {
         Err(e) => return Ok(Err(e)),
     };
     let mut g = liquid::Object::new();
-    g.insert("v".into(), input.to_value());
-    for (i, a) in args.iter().enumerate() {
-        g.insert(format!("a{i}").into(), a.to_value());
+    g.insert("v".into(), input);
+    for (i, a) in args.into_iter().enumerate() {
+        g.insert(format!("a{i}").into(), a);
     }
     PROBED.with(|p| *p.borrow_mut() = None);
     match render(&tpl, &g)? {
